@@ -316,16 +316,74 @@ pub fn export_ir(cases_path: &str, out_path: &str, summary_path: &str, limit: us
     // seeded subsample that keeps the largest programs (they exercise most formers)
     let seed = seed_from_env();
     if limit > 0 && cases.len() > limit {
+        // The sample must not be blind to a way of composing formers: first cover every (parent former, child
+        // position, child former) triple that occurs in the enumeration three times (greedy), then the largest
+        // programs, then a seeded random rest.
         let mut rng = Rng(seed);
-        let mut keep: Vec<J> = Vec::new();
-        cases.sort_by_key(|c| std::cmp::Reverse(c["prog"].as_array().map(|a| a.len()).unwrap_or(1000)));
-        let head = limit / 2;
-        keep.extend(cases.drain(..head));
-        while keep.len() < limit && !cases.is_empty() {
-            let i = rng.below(cases.len());
-            keep.push(cases.swap_remove(i));
+        fn triples(n: &crate::core::Node, out: &mut Vec<String>) {
+            for (i, k) in n.kids.iter().enumerate() {
+                out.push(format!("{}.{}>{}", n.tok["k"].as_str().unwrap_or("?"), i, k.tok["k"].as_str().unwrap_or("?")));
+                triples(k, out);
+            }
         }
-        cases = keep;
+        let keys: Vec<Vec<String>> = cases
+            .iter()
+            .map(|c| {
+                let toks = c["prog"].as_array().unwrap();
+                let mut i = 0;
+                let root = parse(toks, &mut i);
+                let mut v = Vec::new();
+                triples(&root, &mut v);
+                v.sort();
+                v.dedup();
+                v
+            })
+            .collect();
+        let depth = if limit >= 1000 { 3 } else { 1 };
+        let mut need: std::collections::HashMap<&str, usize> = Default::default();
+        let mut freq: std::collections::HashMap<&str, usize> = Default::default();
+        for ks in &keys {
+            for k in ks {
+                need.entry(k.as_str()).or_insert(depth);
+                *freq.entry(k.as_str()).or_insert(0) += 1;
+            }
+        }
+        let mut order: Vec<usize> = (0..cases.len()).collect();
+        // seeded shuffle so that the covering programs differ from run to run
+        for i in (1..order.len()).rev() {
+            order.swap(i, rng.below(i + 1));
+        }
+        let mut chosen: Vec<bool> = vec![false; cases.len()];
+        let mut picked = 0usize;
+        // rarest compositions first
+        let mut by_rarity: Vec<&str> = freq.keys().copied().collect();
+        by_rarity.sort_by_key(|k| (freq[k], *k));
+        for t in by_rarity {
+            while need[t] > 0 && picked < limit * 2 / 3 {
+                let Some(&ci) = order.iter().find(|ci| !chosen[**ci] && keys[**ci].iter().any(|k| k == t)) else { break };
+                for k in &keys[ci] {
+                    if let Some(n) = need.get_mut(k.as_str()) {
+                        *n = n.saturating_sub(1);
+                    }
+                }
+                chosen[ci] = true;
+                picked += 1;
+            }
+        }
+        let mut rest: Vec<usize> = (0..cases.len()).filter(|i| !chosen[*i]).collect();
+        rest.sort_by_key(|i| std::cmp::Reverse(cases[*i]["prog"].as_array().map(|a| a.len()).unwrap_or(0)));
+        let head = (limit - picked) / 2;
+        for &i in rest.iter().take(head) {
+            chosen[i] = true;
+            picked += 1;
+        }
+        let mut tail: Vec<usize> = rest.into_iter().skip(head).collect();
+        while picked < limit && !tail.is_empty() {
+            let j = rng.below(tail.len());
+            chosen[tail.swap_remove(j)] = true;
+            picked += 1;
+        }
+        cases = cases.into_iter().enumerate().filter(|(i, _)| chosen[*i]).map(|(_, c)| c).collect();
     }
     let results: Vec<(Vec<J>, Option<J>, bool)> = par_map_with(
         &cases,
